@@ -383,6 +383,8 @@ func (c dnsrespComp) Gen(r *Rand, tier string, emit func(string)) {
 		c.emitResp(emit, "R", "example.org", "txt", fmt.Sprintf("c _ 1 1 2 %s", hexs(stressBytes(r, n, 1))))
 		c.emitResp(emit, "T", "example.org", "txt", fmt.Sprintf("c _ 1 1 2 %s", hexs(stressBytes(r, n/2, 0))))
 	}
+	// (2c) many records: the order tags around their byte boundary, for every codec
+	c.manyRecords(r, thorough, emit)
 	// (3) every response kind x every error code x record type x codec
 	for _, rr := range respRRs {
 		for _, k := range respCodecs {
@@ -755,6 +757,151 @@ func (c dnsrespComp) boundarySweep(r *Rand, thorough bool, emit func(string)) {
 						}
 					}
 				}
+			}
+		}
+	}
+}
+
+// ---- many records: order tags across the byte boundary ----
+//
+// The answers of one reply are put back in order by a tag every record carries (NULL, PRIVATE, AAAA: two bytes; A: one
+// byte; TXT, CNAME: two base-32 characters; MX: preference = 10 x order; SRV: priority).  A tag written in one byte order
+// and read in the other still sorts the first 255 records correctly; record 256 then lands in front.  Within a DNS
+// message (64 KiB) only the record types with small records get that far: AAAA (14 payload bytes per record: 255 records
+// = 3570 stream bytes, 585 for a stream of 8190) and A (3 bytes, capped at 255 records).  For the others the sweep takes
+// the record counts around the boundaries of their tag alphabets (16, 32) and the most the message holds.  Codecs other
+// than Raw matter here: a permuted stream of codec characters still decodes -- to another payload or another response --
+// while a permuted Raw stream mostly fails on its first byte.
+
+// payloadForRecords: a payload whose response stream (packet response) fills whole records of `per` bytes, at least
+// recsMin and at most recsMax of them (nil when the codec's stream lengths skip every such multiple); also returns the count
+func payloadForRecords(r *Rand, letter string, per, recsMin, recsMax int) ([]byte, int) {
+	// (prefixes of one random buffer: codecs with short forms for runs of zeros are not monotone on a zero filler)
+	buf := make([]byte, recsMax*per+64)
+	for i := range buf {
+		if letter == "R" {
+			buf[i] = base36[r.Intn(36)]
+		} else {
+			buf[i] = byte(r.Next())
+		}
+	}
+	lo, hi := 0, len(buf)
+	for lo < hi {
+		mid := (lo + hi) / 2
+		if len(streamOf(letter, buf[:mid])) >= recsMin*per {
+			hi = mid
+		} else {
+			lo = mid + 1
+		}
+	}
+	for n := lo; n <= len(buf); n++ {
+		l := len(streamOf(letter, buf[:n]))
+		if l > recsMax*per || l == 0 {
+			break
+		}
+		if l%per == 0 && l >= recsMin*per {
+			return append([]byte{}, buf[:n]...), l / per
+		}
+	}
+	return nil, 0
+}
+
+// steerStream changes payload bytes until the response stream carries a response letter at each of the given stream
+// offsets (the first byte of a record that a mis-sorted reassembly would put in front): a reassembled stream that starts
+// with a response letter and consists of the codec's own characters has every chance to decode -- to something else --
+// where a stream that starts with an arbitrary character merely fails.  Best effort; the stream length is kept.
+func steerStream(r *Rand, letter string, data []byte, offsets []int) []byte {
+	const letters = "cvozyre"
+	isLetter := func(b byte) bool { return strings.IndexByte(letters, b) >= 0 }
+	cur := append([]byte{}, data...)
+	st := streamOf(letter, cur)
+	var done []int
+	for _, p := range offsets {
+		if p <= 0 || p >= len(st) || len(cur) == 0 {
+			continue
+		}
+		for try := 0; try < 600 && !isLetter(st[p]); try++ {
+			est := p * len(cur) / len(st)
+			i := est - 6 + r.Intn(8)
+			if i < 0 || i >= len(cur) {
+				continue
+			}
+			old := cur[i]
+			if letter == "R" {
+				cur[i] = letters[r.Intn(len(letters))]
+			} else {
+				cur[i] = byte(r.Next())
+			}
+			st2 := streamOf(letter, cur)
+			ok := len(st2) == len(st)
+			for _, q := range done {
+				ok = ok && q < len(st2) && isLetter(st2[q])
+			}
+			if !ok {
+				cur[i] = old
+				continue
+			}
+			st = st2
+		}
+		if isLetter(st[p]) {
+			done = append(done, p)
+		}
+	}
+	return cur
+}
+
+func (c dnsrespComp) manyRecords(r *Rand, thorough bool, emit func(string)) {
+	const domain = "example.org"
+	// AAAA: whole records only (a short last record does not pack): streams of exactly recs x 14 bytes
+	aaaaRecs := []int{255, 256, 257, 300, 585}
+	if thorough {
+		aaaaRecs = append(aaaaRecs, 2, 128, 254, 258, 511, 512, 513, 600, 1000, 2000, 4000)
+	}
+	for ri, recs := range aaaaRecs {
+		for ki, k := range respCodecs {
+			// a stream of exactly recs*14 bytes, or of the next multiple of 14 the codec's lengths reach
+			data, got := payloadForRecords(r, k, 14, recs, recs+3)
+			if data == nil {
+				continue
+			}
+			// the records a tag misread as big endian / as its low byte / as its high byte would move to the front
+			data = steerStream(r, k, data, []int{14, 255 * 14, 256 * 14, 511 * 14, 512 * 14, (got - 1) * 14})
+			c.emitResp(emit, k, domain, "aaaa", fmt.Sprintf("c _ %d 1 %d %s", r.Intn(65536), r.Intn(65536), hexs(data)))
+			// the same stream as the payload of the other bulky response kinds
+			if thorough || (ri+ki)%3 == 0 {
+				c.emitResp(emit, k, domain, "aaaa", fmt.Sprintf("r _ %d %s", len(data), hexs(data)))
+			}
+		}
+	}
+	// A: one tag byte, the wrapper stops at 255 records
+	for _, recs := range []int{254, 255, 256, 257} {
+		for _, k := range respCodecs {
+			if data, got := payloadForRecords(r, k, 3, recs, recs); data != nil {
+				data = steerStream(r, k, data, []int{3, 127 * 3, 128 * 3, (got - 1) * 3})
+				c.emitResp(emit, k, domain, "a", fmt.Sprintf("c _ %d 1 %d %s", r.Intn(65536), r.Intn(65536), hexs(data)))
+			}
+		}
+	}
+	// CNAME / MX / SRV / TXT / NULL / PRIVATE: record counts around the boundaries of the tag alphabets and what fits
+	per := util.GetLongestDataString(domain)
+	// (on today's code every reply of two or more CNAME / MX / SRV records ends in an encode or pack error)
+	counts := []int{2, 17}
+	if thorough {
+		counts = append(counts, 3, 4, 16, 32, 33, 64, 100, 250, 256)
+	}
+	for ci, n := range counts {
+		for ki, k := range []string{"T", "S", "U", "V", "R"} {
+			for ri, rr := range []string{"cname", "mx", "srv"} {
+				if !thorough && (ci+ki+ri)%3 != 0 {
+					continue
+				}
+				recLen := per
+				if rr == "cname" {
+					recLen = per - 2
+				}
+				// a stream that fills n-1 records and reaches a few bytes into the n-th
+				data := payloadForStreamLen(r, k, (n-1)*recLen+1+r.Intn(5))
+				c.emitResp(emit, k, domain, rr, fmt.Sprintf("c _ %d 1 %d %s", r.Intn(65536), r.Intn(65536), hexs(data)))
 			}
 		}
 	}
